@@ -6,8 +6,9 @@ Case forms (all JSON-able):
   {'op':'unique','ft':FT,'level':LV,'col':[...],'flags':[ri,rv,rc]}
   {'op':'isin','ft':FT,'level':LV,'col':[...],'tests':[...]|None,'tkind':'list'|'set'|'array','via':'method'|'module'}
   FT = 'istr' (col = list of code-point lists) | 'fstr' (col = list of byte lists, 'strlen') |
-       'int32' | 'int8' | 'bool' | 'float32' | 'cat' | 'ts' | 'int64' | 'float64' | 'uint16'
-       (col = ints; float/ts values are quarter units); 'tkind' may also be 'tuple'
+       'int8' | 'int16' | 'int32' | 'int64' | 'uint8' | 'uint16' | 'uint32' | 'uint64' | 'bool' | 'float32' | 'float64' | 'cat' | 'ts'
+       (col = ints; float/ts values are quarter units); 'tkind' may also be 'tuple'; 'tdtype' (with tkind 'array') forces
+       the dtype of the test ndarray; 'keys' the values of a categorical field
   LV = 'ops' (istr only: the operations.py functions on (indices, values)) | 'mem' (…MemField) | 'h5' (HDF5 field)
   istr/ops cases may carry 'raw': {'indices':[…],'values':[…]} instead of 'col' (malformed stream) and
   'idx0': 1 (an empty column stored as indices=[0] instead of []).
@@ -48,18 +49,30 @@ RULE = ('exhaustive small scope: unique on every indexed-string column of length
         'per-element loop, plus collection sizes around the switch-over 10 * rows ** 0.145 for 1..100 rows; (d) every '
         'small integer literal that is new in the tree under test (harness/hot.py) is planted as byte length, row count, '
         'distinct count and test-set size (K-1, K, K+1, 2K-1, 2K, 2K+1, 3K), and the random budgets are tripled when any '
-        'library source differs from the recorded tree. HDF5-backed cases cost ~5 ms each, '
+        'library source differs from the recorded tree; (e) implicit dtype coercions: for every integer dtype (int8 .. int64, '
+        'uint8 .. uint64, categorical) pairs (row value v, test value t != v) that collide under binary64 / binary32 / '
+        'binary16 rounding (beyond 2^53, 2^24, 2^11, at the int64 / uint64 extremes), under two\'s complement '
+        'reinterpretation at the column\'s width (int64 <-> uint64) and under narrowing to 8 / 16 / 32 bits, each looked up '
+        'alone, with a None entry, with a small value, inside 24 further members (narrow and wide), together with v, as '
+        'list / set / tuple / ndarray (inferred dtype, every exact explicit integer dtype, object); all pairs at once; '
+        'structured random mixtures; the 64-bit small scope (all columns <= 2 over 4 values x all 128 subsets of 7 test '
+        'values incl. None). HDF5-backed cases cost ~5 ms each, '
         'hence the smaller bounds at that level. Non-trivial = reaches a planted feature.')
 EXHAUSTIVE = {'quick': True, 'thorough': True}
 TRUSTED = ['numpy sort/argsort of str arrays (code-point order, trailing NULs insignificant), np.unique, np.isin and '
            'CPython\'s UTF-8 codec are defined in Gallina (Model/Unique.v) and tied to the real ones by this '
            'correspondence only',
            'for non-indexed field types the model of the numpy dispatch IS the specification; the theorem for them is '
-           'definitional and the evidence is the differential run']
+           'definitional and the evidence is the differential run; for integer columns the model is the repaired '
+           'FieldDataOps._exact_integer_tests (None and out-of-dtype integers dropped) followed by np.isin on two arrays '
+           'of one integer dtype = membership (theorem isin_int_exact)']
 ASSUMPTIONS = ['strings contain no NUL code point at their end (numpy U/S dtypes drop trailing NULs: finding F-C14b)',
                'no NaN in float/timestamp columns',
-               'test-set entries are None or values of the field\'s kind (integers for integer / bool / categorical fields, '
-               'also just outside the column dtype; quarter-unit floats; bytes; str); containers list, set, ndarray, tuple']
+               'test-set entries are None or values of the field\'s kind (integers of any magnitude for integer / bool / '
+               'categorical fields, inside or outside the column dtype, also beyond uint64; quarter-unit floats; bytes; str); '
+               'containers list, set, tuple, ndarray (of the dtype numpy infers when that holds the integers exactly, of an '
+               'explicit integer dtype, or of dtype object); a float among the test values of an integer column is outside '
+               'the domain (numpy compares in binary64 then)']
 TECHNIQUE = ('Coq proof (faithful model of the indexed-string kernels and their Python drivers = sort/unique/membership '
              'specification over UTF-8 bytes) + exhaustive small-scope differential correspondence against /repo')
 LEVEL_TEXT = ('Theorems in coq/Props/C14.v prove for all columns, flag combinations and test sets that the Gallina model '
